@@ -2,17 +2,24 @@ package c12
 
 import (
 	"bytes"
+	"crypto/ecdsa"
 	"encoding/binary"
+	"encoding/hex"
 	"math/big"
 	"math/rand"
 	"testing"
 	"time"
 
 	mapset "github.com/deckarep/golang-set"
+	"github.com/idena-network/idena-go/blockchain"
 	"github.com/idena-network/idena-go/blockchain/types"
+	"github.com/idena-network/idena-go/common"
 	"github.com/idena-network/idena-go/consensus"
 	"github.com/idena-network/idena-go/core/state"
 	"github.com/idena-network/idena-go/core/state/snapshot"
+	"github.com/idena-network/idena-go/crypto"
+	"github.com/idena-network/idena-go/crypto/ecies"
+	"github.com/idena-network/idena-go/crypto/vrf/p256"
 	"github.com/idena-network/idena-go/keystore"
 	"github.com/idena-network/idena-go/log"
 	"github.com/idena-network/idena-go/protocol"
@@ -319,5 +326,138 @@ func TestRegressionRangeLongerThanRequested(t *testing.T) {
 	t.Logf("handle returned %v; %d element(s) delivered to the request", herr, len(items))
 	if len(items) > 1 {
 		t.Fatalf("%d elements delivered to a request for 1", len(items))
+	}
+}
+
+// frameVrfZeroScalar is the input the native fuzz target (thorough tier) found: a ProposeProof frame whose 129-byte
+// VRF proof starts with 32 zero bytes (s = 0), round 5, with a signature that recovers to some key.
+const frameVrfZeroScalar = "00080312cc010a86010a810100000000000000000000000000000000000000000000000000000000000000000000000000000000000000000000000000000000000000000000040404040404040404040404000000000000000000000000000000008000000000000000000000000000000000000000000000000000000000000000000000000000000000000010051241788525ab85c5cdf0f878dd1ce5275bb1a69fc243466184f1320f1ced9605d30d4785be3d5e7671e419bda233cab53c038b340af0d196f0e6bf563839117ac08d01"
+
+// Failure found by FuzzFrame: p256.ProofToHash multiplied the public key by the scalar s taken from the proof;
+// for s = 0 (and for out-of-range scalars / points that are not on the curve) the multiplication returns nil, nil,
+// which BitCurve.Add dereferenced (handle -> Proposals.AddProposeProof -> ValidateProposerProof -> ProofToHash ->
+// BitCurve.Add -> addJacobian), on the gossip goroutine that has no recover.
+func TestRegressionVrfProofZeroScalar(t *testing.T) {
+	fuzzSetup(t)
+	frame, err := hex.DecodeString(frameVrfZeroScalar)
+	if err != nil {
+		t.Fatal(err)
+	}
+	if r := fuzzNode.r.Chain.Round(); r != 5 {
+		t.Fatalf("setup: the fixed node is in round %d, the saved frame is a proof proposal for round 5", r)
+	}
+	raw, err := protocol.Decode(frame)
+	msg := new(protocol.Msg)
+	if err != nil || msg.FromBytes(raw) != nil || msg.Code != protocol.ProposeProof {
+		t.Fatalf("setup: the saved frame is not a ProposeProof message: %v", err)
+	}
+	pp := new(types.ProofProposal)
+	if err := pp.FromBytes(msg.Payload); err != nil || len(pp.Proof) != 129 || !bytes.Equal(pp.Proof[:32], make([]byte, 32)) || pp.Round != 5 {
+		t.Fatalf("setup: unexpected proof proposal in the saved frame: %v", err)
+	}
+	fuzzStream.feed(frame)
+	mustNotPanic(t, "IdenaGossipHandler.handle(ProposeProof, VRF proof with s = 0)", func() { _ = fuzzNode.h.VerifC12Handle(fuzzPeer) })
+}
+
+// The generators of hostile cryptographic constants produce what they say (self-check of the harness).
+func TestConstGeneratorsSane(t *testing.T) {
+	key := sim.DeriveKey(77, 1)
+	// a sealed ECIES ciphertext with a symmetric part of at least one block decrypts with the library
+	em := append(make([]byte, 16), []byte("hello world")...)
+	ct := eciesSeal(&key.PublicKey, big.NewInt(12345), em)
+	if _, err := ecies.ImportECDSA(key).Decrypt(ct, nil, nil); err != nil {
+		t.Fatalf("eciesSeal does not build an authentic ciphertext: %v", err)
+	}
+	// an honest VRF proof verifies; the "other-key" / "other-message" proofs do not
+	msg := []byte("message")
+	honest := evalVrf(key, msg)
+	v, _ := p256.NewVRFVerifier(&key.PublicKey)
+	if _, err := v.ProofToHash(msg, honest); err != nil {
+		t.Fatalf("honest proof does not verify: %v", err)
+	}
+	if _, err := v.ProofToHash(msg, evalVrf(constKey2, msg)); err == nil {
+		t.Fatalf("proof of another key verifies")
+	}
+	if len(vrfClasses) < 30 || len(sigClasses) < 25 || len(eciesClasses) < 15 || len(pointConsts(nil)) < 15 {
+		t.Fatalf("constant tables shrank")
+	}
+}
+
+// degenerateVrfProof is an honest proof of key for msg with t replaced by s*k (negate: -s*k) mod N, so that the
+// two points the verifier adds, [t]G and [s]([k]G), are equal (opposite).
+func degenerateVrfProof(key *ecdsa.PrivateKey, msg []byte, negate bool) []byte {
+	p := evalVrf(key, msg)
+	s := new(big.Int).SetBytes(p[0:32])
+	tt := new(big.Int).Mul(s, key.D)
+	if negate {
+		tt.Neg(tt)
+	}
+	copy(p[32:64], pad32(tt.Mod(tt, curveN)))
+	return p
+}
+
+// Failure found by TestFrames / TestObjects once the generators put hostile constants into cryptographic fields:
+// p256.ProofToHash adds [t]G and [s]([k]G) (and [t]H and [s]VRF) with BitCurve.Add, whose formulas do not cover
+// equal or opposite points: z3 = 0, ModInverse returns nil, affineFromJacobian dereferences it. Whoever knows the
+// private key k the proof is checked against picks any s and t = +-s*k mod N. No identity is needed: a ProposeProof
+// message is verified against the key recovered from its own signature, a header's seed proof against the
+// ProposerPubKey of the same header (ValidateHeader, before the proposer is looked up) - gossip goroutine, fork
+// resolver and sync, all without recover.
+func TestRegressionVrfProofEqualPoints(t *testing.T) {
+	w, a, b := fixedWorld(t, 3)
+	attacker := sim.DeriveKey(4242, 1) // a key that is no identity and holds no coins
+	g := newGossipNode(b)
+	pr, stream := g.newPeer("hostile-peer")
+	head := b.Chain.Head
+	proposerData := append(append(head.Seed().Bytes(), common.ToBytes(blockchain.ProposerRole)...), common.ToBytes(head.Height()+1)...)
+	for _, negate := range []bool{false, true} {
+		// (a) ProposeProof message
+		pp := &types.ProofProposal{Proof: degenerateVrfProof(attacker, proposerData, negate), Round: b.Chain.Round()}
+		h := crypto.SignatureHash(pp)
+		pp.Signature, _ = crypto.Sign(h[:], attacker)
+		payload, _ := pp.ToBytes()
+		msg, _ := (&protocol.Msg{Code: protocol.ProposeProof, Payload: payload}).ToBytes()
+		stream.feed(protocol.Encode(protocol.ProposeProof, msg))
+		mustNotPanic(t, "IdenaGossipHandler.handle(ProposeProof, proof with t = +-s*k)", func() { _ = g.h.VerifC12Handle(pr) })
+		// (b) header of a block served as a fork: the attacker's key as proposer key, seed proof with t = +-s*k
+		blk := reencode(t, a.Propose().Block)
+		ph := blk.Header.ProposedHeader
+		ph.ProposerPubKey = crypto.FromECDSAPub(&attacker.PublicKey)
+		ph.SeedProof = degenerateVrfProof(attacker, seedData(b.Head()), negate)
+		blk = reencode(t, blk)
+		mustNotPanic(t, "Blockchain.ValidateHeader(seed proof with t = +-s*k)", func() { _ = b.Chain.ValidateHeader(blk.Header, b.Head()) })
+		mustNotPanic(t, "ForkResolver.processBlocks(seed proof with t = +-s*k)", func() {
+			_ = consensus.NewForkResolver(nil, nil, b.Chain, collector.NewStatsCollector()).VerifProcessBlocks([]types.BlockBundle{{Block: blk}})
+		})
+	}
+	_ = w
+	// honest proofs still verify
+	v, _ := p256.NewVRFVerifier(&attacker.PublicKey)
+	if _, err := v.ProofToHash(proposerData, evalVrf(attacker, proposerData)); err != nil {
+		t.Fatalf("an honest proof does not verify: %v", err)
+	}
+}
+
+// Failure found by TestObjects (hostile ECIES constants): the author of a flip publishes its "public" flip key (a
+// private scalar) and a package of private keys encrypted to it. ecies.Decrypt authenticates the symmetric part
+// (iv | ciphertext) but never checks that it holds at least the iv: a correctly authenticated package whose
+// symmetric part is shorter than one cipher block (anybody who knows the published scalar can build one) makes
+// symDecrypt compute a negative length (makeslice: len out of range). KeysPool.GetEncryptedPrivateFlipKey runs
+// it when the ceremony asks for the author's key (the same Decrypt opens flip contents in decryptFlip).
+func TestRegressionEciesShortSymmetricPart(t *testing.T) {
+	key := sim.DeriveKey(4242, 2)
+	for _, n := range []int{1, 15, 16} {
+		ct := eciesSeal(&key.PublicKey, big.NewInt(777), make([]byte, n))
+		evid.Eval()
+		var err error
+		var m []byte
+		o := guard("ecies.Decrypt", func() string { return "" }, func() { m, err = ecies.ImportECDSA(key).Decrypt(ct, nil, nil) })
+		if o.panicked {
+			fn, _ := repoFrame(o.stack)
+			t.Fatalf("ecies.Decrypt of an authenticated ciphertext with a %d-byte symmetric part panicked: %v (first repository frame: %s)", n, o.val, fn)
+		}
+		if n < 16 && err == nil {
+			t.Fatalf("a symmetric part of %d bytes (shorter than the iv) decrypted to %x", n, m)
+		}
 	}
 }
